@@ -174,6 +174,18 @@ def run(ctx):
     stock = list(WITNESSES_STOCK) + [(englib.STOCK[i % 4], englib.gen_api_history(rng, length(), stock=True))
                                      for i in range(n_stock)]
 
+    # navigator span cache after trailing deletions; option toggles after moving the highlight (both kinds of schema)
+    n_pat = 60 if quick else 500
+    synth += [(englib.SYNTH[i % 2], englib.gen_span_history(rng)) for i in range(n_pat)]
+    synth += [(englib.SYNTH[i % 2], englib.gen_option_history(rng, stock=False)) for i in range(n_pat)]
+    stock += [(englib.STOCK[i % 4], englib.gen_span_history(rng)) for i in range(n_pat)]
+    stock += [(englib.STOCK[i % 4], englib.gen_option_history(rng, stock=True)) for i in range(n_pat)]
+    stock.append(("luna_pinyin", ["getctx"] + ["key %d 0" % ord(c) for c in "ei"] + ["key 65364 0"] * 3 + ["opt zh_simp 1", "getctx"]))
+    stock.append(("luna_pinyin", ["getctx"] + ["key %d 0" % ord(c) for c in "nihaoma"] +
+                  ["key 65361 0", "key 65367 0"] + ["key 65288 0"] * 3 + ["key 65361 0", "key 65363 4", "getinput"]))
+    ctx.coverage["pattern_histories"] = {"span_cache": 2 * n_pat, "option_toggle": 2 * n_pat,
+                                         "opencc_data": os.path.isdir(englib.OPENCC)}
+
     stats = collections.Counter()
     opc = collections.Counter()
     samples = []
